@@ -1215,7 +1215,7 @@ fn permutations(items: &mut Vec<String>, k: usize, out: &mut Vec<Vec<String>>) {
 /// What a build's entry point hands to pyxis, as a set: (module path, text) per module and
 /// whatever else an API history adds. Builds are "the same input set" when these agree; an
 /// explicit history that puts a text somewhere else, or leaves one out, is another input.
-fn input_set(world: &World, entry: &crate::run::Entry) -> Vec<(String, u64)> {
+pub fn input_set(world: &World, entry: &crate::run::Entry) -> Vec<(String, u64)> {
     use crate::run::{ApiOp, Entry};
     let files = world.module_files();
     let own = |i: usize| -> Option<(String, u64)> {
